@@ -79,6 +79,7 @@ static std::string legacy_stream_op(int kind, uint32_t cisn, uint32_t sisn, uint
         IP sy = IP(ca, sa); TCP t2(cport, 80); t2.flags(TCP::SYN | TCP::ACK); t2.seq(sisn); t2.ack_seq(cisn + 1); sy.inner_pdu(t2); st->update(&sy, sy.find_pdu<TCP>()); return st; };
     std::unique_ptr<TCPStream> st(open(1234)), c;
     feed(*st, true, 10, 20); feed(*st, true, 25, 30); feed(*st, false, 5, 15); feed(*st, false, 20, 40);      // all held: the first bytes are missing in both directions
+    if (x & 4) { feed(*st, true, 10, 20); feed(*st, false, 20, 40); if (x & 8) feed(*st, true, 25, 30); }      // retransmissions of segments that are still held (same sequence number, same length)
     if (!st->client_payload().empty() || !st->server_payload().empty()) return "data delivered although the first bytes of the stream never arrived";
     if (kind == 0) c.reset(new TCPStream(*st));
     else if (kind == 1) { c.reset(open(1234)); *c = *st; }
